@@ -136,6 +136,9 @@ pub struct InnerState {
     /// been made (a hedge / retry clone) stays Pending until the harness releases it.
     pub hold_late_ready: bool,
     pub held: Vec<HeldReady>,
+    /// indices of inner calls that panic synchronously inside `call()` (before any future
+    /// exists); such a call is logged as started and panicked at once
+    pub sync_panic_calls: Vec<usize>,
 }
 
 pub struct HeldReady {
@@ -217,6 +220,7 @@ pub fn new_shared(origin: tokio::time::Instant, mode: Mode) -> Shared {
         on_call: None,
         hold_late_ready: false,
         held: Vec::new(),
+        sync_panic_calls: Vec::new(),
     }))
 }
 
@@ -331,6 +335,16 @@ impl tower::Service<Req> for GatedInner {
             gate_ms: None,
             waker: None,
         };
+        if g.sync_panic_calls.contains(&k) {
+            rec.status = CallStatus::Panicked;
+            rec.gate = Some(Out::Panic);
+            rec.gate_ms = Some(now);
+            rec.end_ms = Some(now);
+            rec.end_step = Some(step);
+            g.calls.push(rec);
+            drop(g);
+            panic!("inner service panics inside call() on purpose (call #{k})");
+        }
         let mut sleep = None;
         let mut never = false;
         if let Mode::Script = g.mode {
